@@ -6,7 +6,7 @@
    holds s c   : c owns the mutex (from its successful CAS / the hand-over to the end of its unlock)
    waiting s c : c has published a request that was not granted yet. *)
 From Cocls Require Import Base BaseProofs MutexDefs MutexProofs MutexSched MutexObs.
-From Cocls Require MutexOwnDefs MutexOwnProofs.
+From Cocls Require MutexOwnDefs MutexOwnProofs MutexBareDefs MutexBareProofs.
 Local Open Scope Z_scope.
 
 (* at most one owner in every reachable state *)
@@ -100,6 +100,14 @@ Theorem c07_locked_iff_owned : forall s m, MutexOwnProofs.wreach s ->
   (MutexOwnDefs.locked (MutexOwnDefs.gmx s m) = true <-> exists j, MutexOwnDefs.gslot s j = Some m).
 Proof. exact MutexOwnProofs.own_locked_iff. Qed.
 Print Assumptions c07_locked_iff_owned.
+
+(* coroutines that use the mutex without an installed coro_queue (resumed by plain handle.resume(); model MutexBareDefs):
+   whatever sequence of starts and gate openings, at most one coroutine is inside and it is the holder *)
+Theorem c07_bare_exclusion : forall s c d, MutexBareProofs.breach s ->
+  MutexBareDefs.bget s c = Some MutexBareDefs.BIn -> MutexBareDefs.bget s d = Some MutexBareDefs.BIn ->
+  c = d /\ MutexBareDefs.bholder s = Some c.
+Proof. exact MutexBareProofs.bare_exclusion. Qed.
+Print Assumptions c07_bare_exclusion.
 
 (* non-vacuity: coroutine 0 owns the mutex, coroutine 1 has published and its thread is still inside
    await_suspend, plain thread 2 has published too *)
